@@ -102,7 +102,7 @@ class FunctionInfo:
 
     def loc(self, node=None):
         node = node or self.node
-        return "%s:%d" % (self.module.rel, getattr(node, "lineno", 0))
+        return "%s:%d" % (self.module.rel, getattr(node, "orig_lineno", getattr(node, "lineno", 0)))
 
     def all_param_names(self):
         names = list(self.params) + list(self.kwonly)
@@ -157,7 +157,7 @@ class ClassInfo:
 
     def loc(self, node=None):
         node = node or self.node
-        return "%s:%d" % (self.module.rel, getattr(node, "lineno", 0))
+        return "%s:%d" % (self.module.rel, getattr(node, "orig_lineno", getattr(node, "lineno", 0)))
 
     def __repr__(self):
         return "<Class %s>" % self.qualname
@@ -182,6 +182,7 @@ class Module:
         self.tree = alpha.normalise_shape(self.tree)
         self.alpha_renames = alpha.normalise(self.tree, name)
         self.alpha_new_params = alpha.new_params_as_defaults(self.tree, name)
+        self.alpha_index_loops = alpha.restore_index_loops(self.tree, name)
         from . import refdist
         self.stmts_before_unextraction = refdist.statements(self.tree)
         self.alpha_unextracted = alpha.inline_new_helpers(self.tree, name)
